@@ -258,7 +258,7 @@ func checkProperty(pd *propDef, repo, tier string, seed int, controls bool, star
 		Violations:  len(newViol) + len(undec) + len(fatal),
 	}
 	if tier == "thorough" {
-		ev.Coverage["mutants"] = runMutants(pd, rules)
+		ev.Coverage["mutants"] = runMutants(pd, rules, repo)
 		ev.WallS = time.Since(start).Seconds()
 	}
 	if err := writeJSON(fmt.Sprintf("%s/evidence/%s.json", verifDir, pd.id), ev); err != nil {
